@@ -897,6 +897,7 @@ class Facts:
                 reviewed_ = set(json.load(f_))
         except Exception:
             reviewed_ = None
+        self.reviewed_adts = reviewed_
         if reviewed_ is not None:
             for n_, a_ in self.adts.items():
                 if n_ not in reviewed_ and not a_.get("enum") and len(a_["variants"]) == 1 and len(a_["variants"][0]["fields"]) == 1 \
